@@ -321,6 +321,15 @@ def main(tier, seed):
         lbl = a["label"] if "gen_src" not in a else (a["gen_src"][1] if a["gen_src"][0] == "own" else None)
         if lbl and lbl != "[UNLABELED UNIT]" and own.get(k, True) and "gen_src" not in a or (lbl and "gen_src" in a):
             by_label.setdefault(lbl, (a["dim"], a["mag"]))
+    # symbols that two different units share (prefix + symbol concatenation: Nano<Miles> "nmi" = NauticalMiles "nmi",
+    # Milli<Inches> "min" = Minutes "min"): the printed label then IS the label of a unit of another magnitude (finding F26)
+    meanings = {}
+    for k, a in A.atoms.items():
+        lbl = a["label"] if "gen_src" not in a else (a["gen_src"][1] if a["gen_src"][0] == "own" else None)
+        if lbl and lbl != "[UNLABELED UNIT]":
+            meanings.setdefault(lbl, set()).add(A.sig(k))
+    ambiguous = {l for l, sg in meanings.items() if len(sg) > 1}
+    stats["ambiguous_labels"] = sorted(ambiguous)
     parser = Parser(by_label)
     samples = []
     evaluations = 0
@@ -353,7 +362,9 @@ def main(tier, seed):
                     inh = [k for k in uexpr.atoms_of(t) if ("gen_src" in A.atoms[k] and A.atoms[k]["gen_src"][0] == "inh" and A.atoms[k]["gen_src"][1][1])
                            or (k in own and not own[k])]
                     violations.append({"what": f"the label {label!r} printed for {shown} denotes a unit of different magnitude/dimension",
-                                       "class": "foreign-label", "rec": dict(base, kind="foreign", inherits_from_scaled=bool(inh), units=sorted(set(inh)))})
+                                       "class": "foreign-label", "rec": dict(base, kind="foreign", inherits_from_scaled=bool(inh), units=sorted(set(inh)),
+                                                                          shared_symbol=sorted({A.atoms[k]["label"] for k in uexpr.atoms_of(t)
+                                                                                                if A.atoms[k].get("label") in ambiguous}))})
             if canon(label) != canon(mlabel) or int(m.get("size", -1)) != int(r["size"]):
                 violations.append({"what": f"model and implementation print different labels for {shown}", "class": "corr", "no_input": True,
                                    "broken": "correspondence: U.label", "rec": dict(base, kind="corr", model=mlabel, model_size=m.get("size"), impl_size=r["size"])})
